@@ -8,6 +8,7 @@ package pm
 // served by exactly one worker, one at a time).
 
 import (
+	"runtime"
 	"fmt"
 	"io"
 	"log"
@@ -205,6 +206,18 @@ func RealMaster(p RealParams) (res RealResult) {
 		return true
 	}
 	for i := 0; i < len(p.Requests); i++ {
+		if p.Requests[i] == 'G' {
+			// two garbage collections in the master process (the Go runtime forces one at least
+			// every two minutes of a real server's life): nothing the master holds only loosely may go
+			if !drain() {
+				return
+			}
+			runtime.GC()
+			runtime.GC()
+			time.Sleep(50 * time.Millisecond)
+			res.Outcomes[i] = "gc"
+			continue
+		}
 		if p.Requests[i] == 'P' {
 			// a pause longer than --timeout with no request in flight: the workers sit idle
 			if !drain() {
@@ -238,7 +251,7 @@ func RealMaster(p RealParams) (res RealResult) {
 	for i, o := range res.Outcomes {
 		kind := p.Requests[i]
 		switch {
-		case kind == 'P':
+		case kind == 'P' || kind == 'G':
 		case kind == 'H':
 			if !strings.HasPrefix(o, "closed-without-response") {
 				res.Violations = append(res.Violations, fmt.Sprintf("hanging request %d: expected the connection to be closed when its worker is terminated, got %s", i, o))
